@@ -19,6 +19,12 @@
      Prefix   a = denotation width (1,4) b = code  (WriteNum of the code) / CheckTypePrefix
      Seq      a = prefix width, b = element width  WriteSliceOfByteSlices / ReadSequenceOfObjects (no validation)
      All                                           ConsumedAll
+     Obj      a = type denotation width (0,1,4) b = body width   WriteObject / ReadObject (GetObjectType + read guard + Serializable.Deserialize)
+     Payload  b = body width                       WritePayload / ReadPayload  (uint32 length, 0 = no payload; uint32 type; body)
+     Objs     a = prefix width, b = type denotation width (1,4), c = body width   WriteSliceOfObjects / ReadSliceOfObjects (no validation)
+   The Serializable of Obj/Payload/Objs is the harness' fixed-layout object: its type denotation (KnownTypes = 1, 2; the read
+   guard refuses every other type with "UnknownType"; without denotation the guard is asked for type 0 and accepts) followed by
+   b body bytes; its Deserialize fails with NotEnoughData when the data is shorter.  The value of an object is its wire bytes.
    Values: numbers = BE digits, byte strings = byte sequences, Seq = sequence of byte strings; operations
    without a result (Skip, Prefix, All) have the value <<>>.
 
@@ -47,7 +53,7 @@ LenOK(op, n) == (op.c = 0 \/ n <= op.c) /\ (op.b = 0 \/ n >= op.b) /\ FitsLE(n, 
 \* does the writer accept value v for op
 EncOK(op, v) ==
   CASE op.op \in {"VarBytes", "String"} -> LenOK(op, Len(v))
-    [] op.op = "Seq" -> FitsLE(Len(v), op.a)
+    [] op.op \in {"Seq", "Objs"} -> FitsLE(Len(v), op.a)
     [] OTHER -> TRUE
 EncOp(op, v) ==
   CASE op.op \in {"Num", "U256", "Time", "PayLen"} -> Rev(v)
@@ -57,6 +63,9 @@ EncOp(op, v) ==
     [] op.op = "Prefix" -> ToLE(op.b, op.a)
     [] op.op = "Seq" -> ToLE(Len(v), op.a) \o Flat(v)
     [] op.op = "All" -> <<>>
+    [] op.op = "Obj" -> v
+    [] op.op = "Payload" -> ToLE(Len(v), 4) \o v              \* no payload: v = <<>>, length 0
+    [] op.op = "Objs" -> ToLE(Len(v), op.a) \o Flat(v)
 SerEnc(prog, vals) == Flat([i \in 1..Len(prog) |-> EncOp(prog[i], vals[i])])
 
 -------------------------------------------------------------------------------
@@ -74,6 +83,16 @@ Fixed(st, src, n, rev) ==
 
 Width(op) == CASE op.op = "Num" -> op.a [] op.op \in {"Bool", "Byte"} -> 1 [] op.op \in {"Bytes", "InPlace", "Skip"} -> op.a
                [] op.op = "U256" -> 32 [] op.op = "Time" -> 8 [] op.op = "PayLen" -> 4 [] OTHER -> 0
+
+\* reading ONE object with type denotation width tw and body width bw at offset off: the error classes, {} = it is there
+KnownTypes == {1, 2}
+MinPayload == 5
+ObjErr(src, off, tw, bw) ==
+  LET left == Len(src) - off IN
+  IF left < tw THEN {NE}                                                            \* GetObjectType
+  ELSE IF tw > 0 /\ Cut(src, off, tw) \notin {ToLE(t, tw) : t \in KnownTypes} THEN {"UnknownType"}   \* the read guard
+  ELSE IF left < tw + bw THEN {NE}                                                  \* Serializable.Deserialize
+  ELSE {}
 
 Step(st, op, src) ==
   IF st.err # {} THEN st
@@ -111,6 +130,33 @@ Step(st, op, src) ==
                           EXCEPT !.iters = st.iters + n]
     [] op.op = "All" ->
          IF Left(st, src) # 0 THEN Fail(st, {"NotAllConsumed"}) ELSE Take(st, src, 0, <<>>)
+    [] op.op = "Obj" ->
+         LET e == ObjErr(src, st.off, op.a, op.b) IN
+         IF e # {} THEN Fail(st, e) ELSE Take(st, src, op.a + op.b, Cut(src, st.off, op.a + op.b))
+    [] op.op = "Payload" ->
+         IF Left(st, src) < 4 THEN Fail(st, {NE})
+         ELSE LET n    == LEValCap(Cut(src, st.off, 4), Len(src))
+                  left == Left(st, src) - 4
+                  e    == ObjErr(src, st.off + 4, 4, op.b)
+              IN  IF n = 0 THEN Take(st, src, 4, <<>>)                              \* no payload
+                  \* what follows a non-zero length must be at least MinPayload bytes (the code compares the bytes AFTER the length
+                  \* denotation with serializer.MinPayloadByteSize = 5, so a payload that is only its 4-byte type is written by
+                  \* WritePayload but refused here: modelled as the code behaves, see DESIGN 11.5) and hold what the length denotes,
+                  \* BEFORE anything is read from it
+                  ELSE IF left < MinPayload \/ left < n THEN Fail(st, {NE})
+                  ELSE IF e # {} THEN Fail(st, e)
+                  ELSE IF n # 4 + op.b THEN Fail(st, {"InvalidBytes"})                \* the payload's own size disagrees with the denoted one
+                  ELSE Take(st, src, 4 + n, Cut(src, st.off + 4, n))
+    [] op.op = "Objs" ->
+         IF Left(st, src) < op.a THEN Fail(st, {NE})
+         ELSE LET n    == LEValCap(Cut(src, st.off, op.a), Len(src))
+                  w    == op.b + op.c
+                  at(k) == st.off + op.a + (k - 1) * w
+                  bad  == {k \in 1..n : ObjErr(src, at(k), op.b, op.c) # {}}
+              IN  IF bad # {}      \* the first element that cannot be read decides; nothing after it is looked at
+                    THEN LET k == CHOOSE x \in bad : \A y \in bad : x <= y
+                         IN  [Fail(st, ObjErr(src, at(k), op.b, op.c)) EXCEPT !.iters = st.iters + k]
+                    ELSE [Take(st, src, op.a + n * w, [k \in 1..n |-> Cut(src, at(k), w)]) EXCEPT !.iters = st.iters + n]
 
 RECURSIVE RunFrom(_, _, _, _)
 RunFrom(st, prog, i, src) == IF i > Len(prog) THEN st ELSE RunFrom(Step(st, prog[i], src), prog, i + 1, src)
@@ -126,6 +172,7 @@ NumVals(w) == IF w <= 2 THEN [1..w -> {0, 1, 255}]
                     [i \in 1..w |-> IF i = w THEN 1 ELSE 0]}
 \* timestamps the encoder does not saturate: 0 .. MaxInt64 ns
 TimeVals == {Zeros(8), <<0, 0, 0, 0, 0, 0, 1, 2>>, <<127, 255, 255, 255, 255, 255, 255, 255>>, <<1, 2, 3, 4, 5, 6, 7, 8>>}
+ObjVals(tw, bw) == {(IF tw = 0 THEN <<>> ELSE ToLE(t, tw)) \o body : t \in KnownTypes, body \in {[i \in 1..bw |-> i], [i \in 1..bw |-> 255]}}
 OpVals(op) ==
   CASE op.op \in {"Num", "PayLen", "U256"} -> NumVals(Width(op))
     [] op.op = "Time" -> TimeVals
@@ -135,7 +182,13 @@ OpVals(op) ==
     [] op.op \in {"VarBytes", "String"} -> {x \in Strs(2, {0, 65}) \cup {<<1, 2, 3>>} : LenOK(op, Len(x))}
     [] op.op = "Seq" -> Strs(2, {[i \in 1..op.b |-> i], [i \in 1..op.b |-> 255]})
     [] op.op \in {"Skip", "Prefix", "All"} -> {<<>>}
+    [] op.op = "Obj" -> ObjVals(op.a, op.b)
+    [] op.op = "Payload" -> {<<>>} \cup (IF 4 + op.b >= MinPayload THEN ObjVals(4, op.b) ELSE {})
+    [] op.op = "Objs" -> Strs(2, ObjVals(op.b, op.c))
 
+ObjOps == {O("Obj", 0, 2, 0), O("Obj", 1, 1, 0), O("Obj", 4, 0, 0), O("Obj", 4, 1, 0),
+           O("Payload", 0, 0, 0), O("Payload", 0, 1, 0), O("Payload", 0, 2, 0),
+           O("Objs", 1, 1, 1), O("Objs", 1, 1, 0), O("Objs", 2, 4, 0), O("Objs", 4, 1, 2)}
 SingleOps ==
        {O("Num", w, 0, 0) : w \in {1, 2, 4, 8}}
   \cup {O("Bool", 0, 0, 0), O("Byte", 0, 0, 0), O("U256", 0, 0, 0), O("Time", 0, 0, 0), O("PayLen", 0, 0, 0), O("All", 0, 0, 0)}
@@ -144,6 +197,7 @@ SingleOps ==
   \cup {O("String", w, 0, 0) : w \in {1, 2, 4, 8}} \cup {O("String", 1, 1, 2), O("String", 4, 0, 2)}
   \cup {O("Prefix", 1, 2, 0), O("Prefix", 4, 1, 0)}
   \cup {O("Seq", w, e, 0) : w \in {1, 2, 4}, e \in {1, 2}} \cup {O("Seq", 8, 1, 0)}
+  \cup ObjOps
   \cup {O("Seq", 4, 3, 0)}       \* also the wire form of ds/serializableorderedmap [uint8 -> uint16]: count + (key, value) entries
 Chains == {
   <<O("Prefix", 1, 2, 0), O("Num", 2, 0, 0), O("VarBytes", 1, 0, 0), O("All", 0, 0, 0)>>,
@@ -151,7 +205,9 @@ Chains == {
   <<O("Num", 1, 0, 0), O("Skip", 1, 0, 0), O("Bool", 0, 0, 0), O("Bool", 0, 0, 0)>>,
   <<O("VarBytes", 1, 0, 1), O("VarBytes", 1, 0, 0)>>,
   <<O("String", 1, 2, 0), O("Byte", 0, 0, 0)>>,
-  <<O("PayLen", 0, 0, 0), O("Prefix", 4, 1, 0)>> }
+  <<O("PayLen", 0, 0, 0), O("Prefix", 4, 1, 0)>>,
+  <<O("Byte", 0, 0, 0), O("Payload", 0, 1, 0), O("Bool", 0, 0, 0)>>,
+  <<O("Objs", 1, 1, 1), O("Obj", 1, 1, 0), O("All", 0, 0, 0)>> }
 Programs == {<<o>> : o \in SingleOps} \cup Chains
 \* zero-width elements: the count is not paid for by input bytes (kept apart: see ZeroWidth in props/W2.py)
 ZeroWidthPrograms == {<<O("Seq", 1, 0, 0)>>, <<O("Seq", 4, 0, 0)>>}
@@ -161,6 +217,11 @@ RECURSIVE ValVecs(_, _)
 ValVecs(prog, i) == IF i > Len(prog) THEN {<<>>}
                     ELSE {<<x>> \o rest : x \in OpVals(prog[i]), rest \in ValVecs(prog, i + 1)}
 Tails == {<<>>, <<255>>}
+\* payload programs also get: every length denotation 0..7 followed by every tail over {0,1} of up to 6 bytes (an accepted payload
+\* needs at least 8 bytes, more than the bound L of the plain strings)
+PayloadStrs == {ToLE(n, 4) \o t : n \in 0..7, t \in Strs(6, {0, 1})}
+HasPayload(p) == \E i \in 1..Len(p) : p[i].op = "Payload"
+TotalStrs(p) == Strs(L, Alphabet) \cup (IF HasPayload(p) /\ Len(p) = 1 THEN PayloadStrs ELSE {})
 \* (a program that ends with ConsumedAll must of course reject a tail)
 TailsFor(p) == IF \E i \in 1..Len(p) : p[i].op = "All" THEN {<<>>} ELSE Tails
 
@@ -172,7 +233,7 @@ Init == /\ pc = 1 /\ st = St0
         /\ prog \in Programs
         /\ IF Mode = "rt"
              THEN vals \in ValVecs(prog, 1) /\ \E t \in TailsFor(prog) : src = SerEnc(prog, vals) \o t
-             ELSE vals = None /\ src \in Strs(L, Alphabet)
+             ELSE vals = None /\ src \in TotalStrs(prog)
 Next == /\ pc <= Len(prog)
         /\ st' = Step(st, prog[pc], src)
         /\ pc' = pc + 1
